@@ -78,6 +78,7 @@ type crashPlanner struct {
 	variant int
 	fired   *firedCrash
 	nFired  int
+	prev    [2]string // kind:class of the two preceding events of the node
 }
 
 func newCrashPlanner(c *Ctx, tag int, home string) *crashPlanner {
@@ -167,6 +168,9 @@ func (p *crashPlanner) hook(ev *simrt.IOEvent) simrt.IOAction {
 	if p.keepLog {
 		p.log = append(p.log, ioRec{Kind: ev.Kind, Class: class, Len: ev.Len, Phase: p.phase, Enum: en, Off: ev.Off, Path: strings.TrimPrefix(ev.Path, p.home)})
 	}
+	cur := ev.Kind + ":" + class
+	prev := p.prev
+	p.prev = [2]string{cur, prev[0]}
 	if !p.armed {
 		return simrt.IOAction{}
 	}
@@ -204,6 +208,12 @@ func (p *crashPlanner) hook(ev *simrt.IOEvent) simrt.IOAction {
 	}
 	if p.phase == "recovery" {
 		p.c.Fault("crash_in_recovery")
+	}
+	// the window of the write-ahead design: batch in tmp.data, stable pointer not yet moved
+	if p.phase == "run" && ((cur == "sync:tmp.data" && prev[0] == "write:tmp.data" && variant != cvAfter) ||
+		(ev.Kind == "ldb.write" && prev[0] == "sync:tmp.data" && variant != cvAfter) ||
+		(cur == "write:tmp.data" && variant == cvAfter) || (cur == "sync:tmp.data" && variant == cvAfter)) {
+		p.c.Probe("crash_between_batch_and_stable_pointer")
 	}
 	simrt.Log("c08.crash", p.raw, int64(variant), kind+":"+class)
 	return act
